@@ -213,7 +213,7 @@ class Ctx:
     def coq_build(self, targets, timeout=1800, clean=False):
         """make the given .vo targets (and their dependencies only).  Each
         target is one obligation 'coq:<target>'."""
-        rc, out = self.sh([os.path.join(VERIF, "tools", "mkcoqproject.sh")])
+        rc, out = self.sh(["flock", os.path.join(WORK, "coq.lock"), os.path.join(VERIF, "tools", "mkcoqproject.sh")])
         if rc != 0:
             self.obligations.append(("coq:project", False, out[-2000:]))
             return False
@@ -222,7 +222,7 @@ class Ctx:
             self.sh([os.path.join(VERIF, "tools", "mkcoqproject.sh")])
         allok = True
         for t in targets:
-            rc, out = self.sh(["make", "-j16", t], cwd=COQ, timeout=timeout)
+            rc, out = self.sh(["flock", os.path.join(WORK, "coq.lock"), "make", "-j16", t], cwd=COQ, timeout=timeout)
             ok = rc == 0
             if not ok:
                 allok = False
@@ -238,24 +238,21 @@ class Ctx:
         the Properties file to capture Print Assumptions; one obligation per
         Theorem in it."""
         bad = []
-        for root, _, files in os.walk(COQ):
-            for fn in files:
-                if fn.endswith(".v"):
-                    p = os.path.join(root, fn)
-                    src = strip_comments(open(p).read())
-                    for m in FORBIDDEN.finditer(src):
-                        ln = src.count("\n", 0, m.start()) + 1
-                        bad.append("%s:%d:%s" % (os.path.relpath(p, COQ), ln, m.group(0)))
-                    # Variable/Hypothesis outside a Section
-                    depth = 0
-                    for ln, line in enumerate(src.split("\n"), 1):
-                        s = line.strip()
-                        if re.match(r"(Section|Module)\s+\w+", s) and not re.match(r"Module\s+\w+\s*:=", s):
-                            depth += 1
-                        elif re.match(r"End\s+\w+\s*\.", s):
-                            depth = max(0, depth - 1)
-                        elif depth == 0 and re.match(r"(Variable|Variables|Hypothesis|Hypotheses|Context)\b", s):
-                            bad.append("%s:%d:%s outside section" % (os.path.relpath(p, COQ), ln, s.split()[0]))
+        for p in sorted(self._coq_deps(props_v)):
+            src = strip_comments(open(p).read())
+            for m in FORBIDDEN.finditer(src):
+                ln = src.count("\n", 0, m.start()) + 1
+                bad.append("%s:%d:%s" % (os.path.relpath(p, COQ), ln, m.group(0)))
+            # Variable/Hypothesis outside a Section
+            depth = 0
+            for ln, line in enumerate(src.split("\n"), 1):
+                st = line.strip()
+                if re.match(r"(Section|Module)\s+\w+", st) and not re.match(r"Module\s+\w+\s*:=", st):
+                    depth += 1
+                elif re.match(r"End\s+\w+\s*\.", st):
+                    depth = max(0, depth - 1)
+                elif depth == 0 and re.match(r"(Variable|Variables|Hypothesis|Hypotheses|Context)\b", st):
+                    bad.append("%s:%d:%s outside section" % (os.path.relpath(p, COQ), ln, st.split()[0]))
         self.obligations.append(("audit:forbidden-tokens", not bad, "; ".join(bad[:20])))
         full = os.path.join(COQ, props_v)
         src = strip_comments(open(full).read())
@@ -287,6 +284,26 @@ class Ctx:
         self.checker_cmd = "cd /verif/coq && make -j16 %s && coqc -R . Verif %s  (Print Assumptions under every theorem)" % (
             props_v.replace(".v", ".vo"), props_v)
         return theorems
+
+    def _coq_deps(self, props_v):
+        """All .v files of our development that props_v (transitively) requires,
+        plus every file in the property's own directory."""
+        todo = [os.path.join(COQ, props_v)]
+        d = os.path.dirname(todo[0])
+        todo += [os.path.join(d, f) for f in os.listdir(d) if f.endswith(".v") and not f.startswith(("cases_", "zz_"))]
+        seen = set()
+        while todo:
+            p = todo.pop()
+            if p in seen or not os.path.exists(p):
+                continue
+            seen.add(p)
+            src = strip_comments(open(p).read())
+            for m in re.finditer(r"From\s+Verif\s+Require\s+(?:Import|Export)?\s*(.*?)\.(?=\s)", src, re.S):
+                for mod in m.group(1).split():
+                    todo.append(os.path.join(COQ, mod.replace(".", "/") + ".v"))
+            for m in re.finditer(r"Require\s+(?:Import|Export)?\s+Verif\.([\w.]+)", src):
+                todo.append(os.path.join(COQ, m.group(1).replace(".", "/") + ".v"))
+        return seen
 
     def coqchk(self, modules, timeout=3000):
         rc, out = self.sh(["coqchk", "-silent", "-o", "-R", ".", "Verif"] + modules, cwd=COQ, timeout=timeout)
@@ -483,11 +500,15 @@ def fmt_z(x):
 
 
 def load_known():
-    p = os.path.join(VERIF, "KNOWN_FINDINGS.json")
-    if not os.path.exists(p):
-        return []
-    with open(p) as f:
-        return json.load(f).get("entries", [])
+    """Committed known-findings files (never written at run time):
+    KNOWN_FINDINGS.json plus the per-property fragments known_findings/Cnn.json."""
+    import glob
+    entries = []
+    for p in [os.path.join(VERIF, "KNOWN_FINDINGS.json")] + sorted(glob.glob(os.path.join(VERIF, "known_findings", "C*.json"))):
+        if os.path.exists(p):
+            with open(p) as f:
+                entries += json.load(f).get("entries", [])
+    return entries
 
 
 def read_cases(path):
